@@ -409,6 +409,10 @@ fn skeleton(src: &mut Src, path: &str, owner: &str, func: &str, cfg_not_vmem: bo
             _ => {} } }
     }
     scan(&file.items, owner, func, cfg_not_vmem, &mut blk);
+    if blk.is_none() && owner.starts_with("PrivateMRBIterator<T>for") {
+        // not overridden by the type: the trait's default body
+        return skeleton(src, "src/iterators/iterator_trait.rs", "PrivateMRBIterator", func, cfg_not_vmem);
+    }
     let b = blk.ok_or(format!("fn `{func}` of `{owner}` not found in {path}"))?;
     let mut v = SkelVisitor::default();
     v.helpers = trait_helpers;
@@ -515,6 +519,22 @@ fn store_kinds(src: &mut Src) -> Result<String, String> {
         o.push_str(&format!("def {lean} : StoreKind := {}\n", classify_store(b)?));
     }
     Ok(o)
+}
+
+/// Replaces every occurrence of the identifier `name` (not a field / path segment) in a token stream.
+fn subst_ident(ts: proc_macro2::TokenStream, name: &str, rep: &proc_macro2::TokenStream) -> proc_macro2::TokenStream {
+    use proc_macro2::{TokenTree, Group};
+    let toks: Vec<TokenTree> = ts.into_iter().collect();
+    let mut out: Vec<TokenTree> = vec![];
+    for (k, t) in toks.iter().enumerate() {
+        let after_dot = k > 0 && matches!(&toks[k - 1], TokenTree::Punct(p) if p.as_char() == '.') && !(k > 1 && matches!(&toks[k - 2], TokenTree::Punct(p) if p.as_char() == '.'));
+        match t {
+            TokenTree::Ident(i) if i == name && !after_dot => out.extend(rep.clone()),
+            TokenTree::Group(g) => out.push(TokenTree::Group(Group::new(g.delimiter(), subst_ident(g.stream(), name, rep)))),
+            o => out.push(o.clone()),
+        }
+    }
+    out.into_iter().collect()
 }
 
 /// Integer literals occurring in a normalised text (tokens made of digits only, not part of an identifier or a type suffix).
@@ -944,6 +964,16 @@ fn construction(src: &mut Src) -> Result<String, String> {
     // (1) the split functions of `impl_splits!`
     let file = src.file("src/ring_buffer/storage/mod.rs")?.clone();
     let body = macro_body_items(&file, "impl_splits")?;
+    // provided (default) methods of the `IterManager` trait other than the accessors themselves
+    let mut provided: std::collections::HashMap<String, (Vec<String>, syn::Block)> = std::collections::HashMap::new();
+    if let Ok(tf) = src.file("src/ring_buffer/variants/ring_buffer_trait.rs") {
+        for it in &tf.items { if let syn::Item::Trait(t) = it { if t.ident == "IterManager" {
+            for ti in &t.items { if let syn::TraitItem::Fn(g) = ti { if let Some(d) = &g.default {
+                let n = g.sig.ident.to_string();
+                if !ACCESSORS.contains(&n.as_str()) { provided.insert(n, (fn_params(&g.sig), d.clone())); }
+            } } }
+        } } }
+    }
     let mut rows = vec![];
     for it in &body.items {
         let i = match it { syn::Item::Impl(i) => i, _ => continue };
@@ -956,7 +986,30 @@ fn construction(src: &mut Src) -> Result<String, String> {
             let (mut resets, mut alive, mut iters, mut bufref) = (vec![], vec![], vec![], String::new());
             // bindings of the function (`let prod = ProdIter::new(..)`), so that the returned tuple is read by what it holds
             let mut lets: std::collections::HashMap<String, String> = std::collections::HashMap::new();
+            // calls of provided methods of `IterManager` (`self.rewind_indices();`, `self.announce_iters(true);`) are replaced by
+            // their bodies, with the parameters substituted and `if <literal>` decided
+            let mut expanded: Vec<Stmt> = vec![];
             for st in &f.block.stmts {
+                let mut done = false;
+                if let Stmt::Expr(Expr::MethodCall(m), Some(_)) = st { if q(&m.receiver) == "self" { if let Some((ps, hb)) = provided.get(&m.method.to_string()) { if ps.len() == m.args.len() {
+                    let mut ts = quote::quote!(#hb);
+                    for (p, a) in ps.iter().zip(m.args.iter()) { ts = subst_ident(ts, p, &quote::quote!(#a)); }
+                    if let Ok(nb) = syn::parse2::<syn::Block>(ts) {
+                        for hs in nb.stmts {
+                            match &hs {
+                                Stmt::Expr(Expr::If(i), _) if matches!(q(&i.cond).as_str(), "true" | "false") => {
+                                    if q(&i.cond) == "true" { expanded.extend(i.then_branch.stmts.iter().cloned()); }
+                                    else if let Some((_, e)) = &i.else_branch { if let Expr::Block(b) = &**e { expanded.extend(b.block.stmts.iter().cloned()); } }
+                                }
+                                _ => expanded.push(hs),
+                            }
+                        }
+                        done = true;
+                    }
+                } } } }
+                if !done { expanded.push(st.clone()); }
+            }
+            for st in &expanded {
                 let t = quote::quote!(#st).to_string().replace(' ', "");
                 for (m, fld) in [("set_prod_index", ".prod"), ("set_work_index", ".work"), ("set_cons_index", ".cons")] {
                     if t.starts_with(&format!("self.{m}(")) { if t == format!("self.{m}(0);") { resets.push(fld.to_string()); } else { return Err(format!("{name}: `{t}` does not reset the index to 0")); } }
@@ -1273,46 +1326,20 @@ fn async_delegation(src: &mut Src) -> Result<String, String> {
     }
     pairs.sort(); pairs.dedup();
     let mut o = format!("def asyncDelegation : List (String × String × Nat) := [\n  {}]\n", pairs.join(",\n  "));
-    // MRBFuture::poll: what one poll does, recognised from its landmarks in either of its two usual forms
-    //  (A) a loop run at most twice: attempt (one call site per calling convention `R`), on failure put the payload back, return
-    //      `Pending` if the waker was registered in the previous iteration, else register it and go round again;
-    //  (B) unrolled: attempt, on failure register the waker, attempt again, `Pending` only if that fails too — the attempt (with the
-    //      restoration of the payload) possibly in a private helper method.
-    // Landmarks: the attempt is a call with `self.iter` as first argument; the registration `.register_waker(`; `Poll::Ready(`, `Poll::Pending`.
+    // MRBFuture::poll as the set of event sequences it can perform (attempt ok / attempt failed / register the waker / Ready /
+    // Pending), computed by a small interpreter over its syntax tree (`poll.rs`): loops, flags, `for x in [false, true]`,
+    // early returns and private helper methods are followed, so the loop form and the unrolled form give the same set.
     let file = src.file("src/iterators/async_iterators/mod.rs")?.clone();
     let f = find_fn(&file, "MRBFuture", "poll").ok_or("MRBFuture::poll not found")?;
-    let b = f.block;
-    let t = quote::quote!(#b).to_string().replace(' ', "");
-    // private helpers of MRBFuture that perform the attempt
-    let mut helpers: Vec<(String, String)> = vec![];
+    let mut helpers: std::collections::HashMap<String, &syn::Block> = std::collections::HashMap::new();
     for it in &file.items { if let syn::Item::Impl(i) = it {
         let ty = &i.self_ty; if !quote::quote!(#ty).to_string().replace(' ', "").starts_with("MRBFuture") { continue; }
-        for ii in &i.items { if let syn::ImplItem::Fn(g) = ii { if g.sig.ident != "poll" {
-            let gb = &g.block; let gt = quote::quote!(#gb).to_string().replace(' ', "");
-            if gt.contains("(self.iter,") { helpers.push((g.sig.ident.to_string(), gt)); }
-        } } }
+        for ii in &i.items { if let syn::ImplItem::Fn(g) = ii { if g.sig.ident != "poll" { helpers.insert(g.sig.ident.to_string(), &g.block); } } }
     } }
-    let cnt = |hay: &str, pat: &str| hay.matches(pat).count();
-    let positions = |hay: &str, pat: &str| -> Vec<usize> { hay.match_indices(pat).map(|x| x.0).collect() };
-    let regs = positions(&t, ".register_waker(");
-    let pend = positions(&t, "Poll::Pending");
-    let ready = cnt(&t, "Poll::Ready(");
-    o.push_str(&format!("-- poll: {}\n", t.replace('"', "'")));
-    let (form, attempts, between, pending_last, restores) = if t.contains("loop{") {
-        let sites = positions(&t, "(self.iter,");
-        let ok = sites.len() == 2 && regs.len() == 1 && pend.len() == 1 && ready == 1;
-        // the `Pending` exit is tested before the registration inside the loop body, so it can only be taken by the iteration that follows the registration
-        ("loop", if ok { 2 } else { 0 }, ok && sites[0] < regs[0], ok && pend[0] < regs[0] && sites[1] < pend[0], t.contains("self.p=Some("))
-    } else if helpers.len() == 1 && cnt(&helpers[0].1, "(self.iter,") == 2 {
-        let calls = positions(&t, &format!(".{}(", helpers[0].0));
-        let ok = calls.len() == 2 && regs.len() == 1 && pend.len() == 1 && ready >= 1 && cnt(&t, "(self.iter,") == 0;
-        ("unrolled", if ok { 2 } else { 0 }, ok && calls[0] < regs[0] && regs[0] < calls[1], ok && calls[1] < pend[0], helpers[0].1.contains("self.p=Some("))
-    } else {
-        let sites = positions(&t, "(self.iter,");
-        let ok = sites.len() == 4 && regs.len() == 1 && pend.len() == 1 && ready >= 1;
-        ("unrolled", if ok { 2 } else { 0 }, ok && sites[1] < regs[0] && regs[0] < sites[2], ok && sites[3] < pend[0], cnt(&t, "self.p=Some(") >= 2 || cnt(&t, "this.p=Some(") >= 2)
-    };
-    o.push_str(&format!("def pollShape : PollShape := {{ form := \"{form}\", attemptsAtMost := {attempts}, registersBetweenAttempts := {between}, pendingOnlyAfterRegisteredAttempt := {pending_last}, restoresPayload := {restores} }}\n"));
+    let (traces, restores) = crate::poll::traces(f.block, helpers);
+    let rows: Vec<String> = traces.iter().map(|t| format!("[{}]", t.iter().map(|e| format!(".{e}")).collect::<Vec<_>>().join(", "))).collect();
+    o.push_str(&format!("def pollTraces : List (List PollEv) := [{}]\n", rows.join(", ")));
+    o.push_str(&format!("def pollRestoresPayload : Bool := {restores}\n"));
     Ok(o)
 }
 
